@@ -63,6 +63,13 @@ class Var:
         order = [src_dims.index(d) for d in self.dims]
         return numpy.transpose(arr, order)
 
+    def typed(self, arr):
+        """Values as stored in the file: NaN -> fill for integer variables, cast to the variable's dtype."""
+        if self.dtype.startswith('float'):
+            return arr.astype(self.dtype)
+        out = numpy.where(numpy.isnan(arr), self.fill[1] if self.fill else 0, arr)
+        return out.astype(self.dtype)
+
     def data(self, model):
         arr = self.layout(model)
         if self.dtype.startswith('float'):
@@ -87,6 +94,7 @@ class Model:
         self.cells = []
         self.centres = []
         self.invalid_cells = []
+        self.skip_cells = set()    # cells about which the oracle asserts nothing (degenerate derived geometry)
         self.variables = {}
         self.encoding = {}
         self.geometry_names = []
